@@ -169,7 +169,7 @@ def gen_sm(ctx, rng):
         avail += out_space
     resid = gen_fn(rng, "resid", avail, rng.randint(1, 3), deg=2)
     varying = [a[0] for a in avail if a[0] not in [p[0] for p in param]]
-    const_names = [d["name"] for d in data if d.get("form") == "const"]
+    const_names = [d["name"] for d in data if d.get("form") in ("const", "number")]
     if not (set(resid["params"]) - set(const_names)) & set(varying) and (cls in ("single",) or rng.random() < 0.7):
         # a residual of parameters/constants only returns a 1-row tensor (broadcasting): legal, and the mean /
         # max of one row is the mean / max over the points — kept for the fixed-reduction classes, avoided
@@ -1252,11 +1252,20 @@ def gen_per(ctx, rng):
         param = [[pn, [js(cc.dy(rng)) for _ in range(rng.randint(1, 2))]]]
     data = [gen_fn(rng, dn, full, rng.randint(1, 2)) for dn in rng.sample(DATA, rng.choice([0, 1, 1, 2]))]
     for d in data:
+        if bspace and not set(d["params"]) & {v for v, _ in bspace} and rng.random() < 0.8:
+            # data that depends on the NON-periodic point: frozen or misplaced values show
+            bv = bspace[0][0]
+            st_ = d.get("state")
+            npy = len(d["defaults"]) - (1 if st_ and st_["kind"] == "partial" else 0)
+            d["params"].insert(len(d["params"]) - npy, bv)
+            d["kwonly"] = 0
+            d["body"][0] = ["+", d["body"][0], ["*", ["c", js(cc.dy(rng, 1, 4, 1))], ["v", bv, 0]]]
+    for d in data:
         if rng.random() < 0.4:
             # `def g(y, x=0.5)` with x the PERIODIC variable: the end point is supplied, the default never used
             make_defaulted(rng, d, pv)
         d["wrap"] = rng.random() < 0.4           # the SAME UserFunction object serves the left and the right side
-    n = rng.choice([1, 2, 3, 4]) if bspace else 1
+    n = rng.choice([1, 1, 2, 3, 4]) if bspace else 1          # a single non-periodic point is a size edge case of its own
     data = tabulate(rng, data, n)
     static = bool(bspace) and rng.random() < 0.5
     calls = rng.choice([1, 2])
@@ -1265,8 +1274,10 @@ def gen_per(ctx, rng):
     for nm, d in psp + out_space + [[d["name"], len(d["body"])] for d in data]:
         avail += [[nm + "_left", d], [nm + "_right", d]]
     resid = gen_fn(rng, "resid", avail, rng.randint(1, 2), deg=2)
-    varying = [a_[0] for a_ in avail if a_[0] not in [p[0] for p in param]]
+    flat = {d["name"] + side for d in data if d.get("form") in ("const", "number") for side in ("_left", "_right")}
+    varying = [a_[0] for a_ in avail if a_[0] not in [p[0] for p in param] and a_[0] not in flat]
     if not set(resid["params"]) & set(varying):
+        # (a residual of parameters / numbers / constants only is a 1-row tensor: not the sum over the points for torch.sum)
         resid["params"].insert(0, rng.choice(varying))
     for d in data:
         # the residual should look at both sides of the data it is given (that is where sides can be mixed up)
